@@ -80,7 +80,7 @@ def main():
         common.lake_build(state)
         theorems = list(mod.THEOREMS)
         if state.build_ok:
-            common.audit(state, pid, theorems, mod.MODULE)
+            common.audit(state, pid, theorems, [mod.MODULE] + list(getattr(mod, 'EXTRA_IMPORTS', [])))
         unproved = []
         if not state.build_ok:
             unproved = ['(lake build failed)']
